@@ -31,7 +31,7 @@ ASSUMPTIONS = ['enumeration is exhaustive per point set up to the stated length,
 
 
 def gen_cases(tier, seed):
-    n = 32 if tier == 'quick' else 48
+    n = 64 if tier == 'quick' else 64
     depth = 3 if tier == 'quick' else 5
     return [{'i': i, 'seed': seed, 'depth': depth} for i in range(n)]
 
@@ -85,11 +85,23 @@ def make_points(spec):
             [[.05, .05, .05], [.95, .95, .05], [.05, .95, .95], [.95, .05, .95]]
         k = len(corners)
         pts = [np.array(c) + 0.02 * rng.normal(size=(int(rng.integers(40, 90)), d)) for c in corners]
+    starve = (i % 8 == 3)
+    if starve:
+        # corner clusters again, with n_points_min chosen so that records of slightly more than 2*n_points_min points
+        # occur after two splits (where a very uneven mixture fit + top-up can starve the larger cluster)
+        d = 2 + (i // 8) % 2
+        corners = [[.05, .05], [.95, .95], [.05, .95], [.95, .05]] if d == 2 else \
+            [[.05, .05, .05], [.95, .95, .05], [.05, .95, .95], [.95, .05, .95]]
+        k = int(rng.integers(3, len(corners) + 1))
+        npm_s = int(rng.choice([20, 25, 30]))
+        pts = [np.array(c) + 0.02 * rng.normal(size=(int(rng.integers(2 * npm_s, 3 * npm_s)), d)) for c in corners[:k]]
     p = np.clip(np.vstack(pts), 1e-6, 1 - 1e-6)
     rng.shuffle(p)
     enlarge = float([1.1, 1.05, 1.5][i % 3])
     if flat:
         enlarge, npm = float([1.05, 1.1][i % 2]), [None, 15][(i // 8) % 2]
+    if starve:
+        npm = npm_s
     return p, dict(d=d, clusters=k, n_points_min=npm, bound_class=cls, n=len(p),
                    enlarge_per_dim=enlarge, halo=(i % 5 == 0), flat=bool(flat))
 
